@@ -16,7 +16,7 @@ RULE = ('(a) TruncationMonitor on every depth-0 public UTPM call with D>1 while 
         'D\'=1 forward result against the program run on plain ndarrays; eigen/singular vectors only when the eigenvalues of A_0 are '
         'distinct; class = (call or program, D, shapes); non-trivial = some input coefficient of order >= D\' is non-zero')
 ASSUMPTIONS = ['the same operation on the truncated polynomial is the reference', 'eig is excluded (supports D<=2 only by its own assertion)']
-REQUIRED = ['truncation-shadow', 'program:forward', 'program:reverse', 'program:D1-equals-numpy', 'hostile:large-high-coefficients', 'pattern', 'kink', 'highD', 'late-complex']
+REQUIRED = ['truncation-shadow', 'program:forward', 'program:reverse', 'program:D1-equals-numpy', 'hostile:large-high-coefficients', 'pattern', 'kink', 'highD', 'late-complex', 'extract']
 
 _mon = None
 
@@ -63,12 +63,14 @@ def cases(tier, seed):
                 out.append({'kind': 'pattern', 'seed': case_seed('C12', seed, 'pattern', name, pat, D), 'params': {'fn': name, 'pattern': pat, 'D': D}})
     for i in range(12 if tier == 'quick' else 60):
         out.append({'kind': 'kink', 'seed': case_seed('C12', seed, 'kink', i), 'params': {'D': 3 + i % 3}})
-    for i, D in enumerate((33, 40) if tier == 'quick' else (32, 33, 36, 40, 48, 64, 65)):
+    for i, D in enumerate((33, 40, 64, 96) if tier == 'quick' else (32, 33, 36, 40, 48, 63, 64, 65, 96, 128, 130)):
         for rep in range(4):
             out.append({'kind': 'highD', 'seed': case_seed('C12', seed, 'highD', D, rep), 'params': {'D': D}})
     for D in (3, 4, 5):
         for k in range(1, D):
             out.append({'kind': 'latecomplex', 'seed': case_seed('C12', seed, 'latecomplex', D, k), 'params': {'D': D, 'k': k}})
+    for i in range(12 if tier == 'quick' else 120):
+        out.append({'kind': 'extract', 'seed': case_seed('C12', seed, 'extract', i), 'params': {'D': 3 + i % 4, 'N': 1 + i % 3}})
     for i in range(24 if tier == 'quick' else 200):
         out.append({'kind': 'hostile', 'seed': case_seed('C12', seed, 'hostile', i), 'params': {'which': i % 6, 'D': 3 + i % 3}})
     return out
@@ -90,6 +92,8 @@ def run_case(ctx, case):
         return _highD(ctx, case['params'], rng)
     if case['kind'] == 'latecomplex':
         return _latecomplex(ctx, case['params'], rng)
+    if case['kind'] == 'extract':
+        return _extract(ctx, case['params'], rng)
     if case['kind'] == 'pattern':
         return _pattern(ctx, case['params'], rng)
     if case['kind'] == 'kink':
@@ -114,6 +118,27 @@ def _pattern(ctx, p, rng):
                 ctx.skip('sut-raises:pattern')
     if sum(ctx.violation_count.values()) == before:
         ctx.ok('pattern', ('pattern', p['fn'], p['pattern'], p['D']))
+
+
+def _extract(ctx, p, rng):
+    """what the driver-level extractors read off a result with D coefficients is what they read off the same computation
+    truncated to the two coefficients a Jacobian needs"""
+    D, N = p['D'], p['N']
+    x = rng.normal(size=N)
+    d = np.zeros((D, N, N)); d[0] = x; d[1] = np.eye(N)
+    d[2:] = rng.normal(size=(D - 2, N, N)) * (0.0 if rng.random() < 0.5 else 1.0)
+    f = lambda X: algopy.sin(X) * X[::-1] + algopy.exp(0.3 * X) * algopy.sum(X * X)
+    try:
+        full = np.asarray(UTPM.extract_jacobian(f(UTPM(d.copy()))))
+        short = np.asarray(UTPM.extract_jacobian(f(UTPM(d[:2].copy()))))
+        fv = np.asarray(UTPM.extract_jac_vec(f(UTPM(d[:, :1].copy()))))
+        sv = np.asarray(UTPM.extract_jac_vec(f(UTPM(d[:2, :1].copy()))))
+    except Exception:
+        ctx.skip('sut-raises:extract'); return
+    for tag, a, b in (('extract_jacobian', full, short), ('extract_jac_vec', fv, sv)):
+        if a.shape != b.shape or not np.all(np.abs(a - b) <= TOL * (np.abs(b) + 1.0)):
+            ctx.violation('extract:%s' % tag, {'D': D, 'N': N, 'with_D_coefficients': a.tolist(), 'with_two_coefficients': b.tolist()}); return
+    ctx.ok('extract', ('extract', D, N))
 
 
 def _latecomplex(ctx, p, rng):
@@ -151,7 +176,10 @@ def _highD(ctx, p, rng):
         a = a * (g ** np.arange(D)).reshape(D, 1, 1); b = b * (g ** np.arange(D)).reshape(D, 1, 1)
     X, Y = UTPM(a), UTPM(b)
     for f in (lambda: X * Y, lambda: X / Y, lambda: X ** 3, lambda: algopy.exp(0.1 * X), lambda: algopy.log(Y), lambda: algopy.sqrt(Y), lambda: algopy.dot(X, Y),
-              lambda: algopy.square(X), lambda: algopy.sin(0.1 * X), lambda: 1.0 / Y):
+              lambda: algopy.square(X), lambda: algopy.sin(0.1 * X), lambda: 1.0 / Y,
+              # functions built from a derivative series and one convolution
+              lambda: algopy.special.erf(0.1 * X), lambda: algopy.expm1(0.1 * X), lambda: algopy.log1p(Y), lambda: algopy.special.expit(0.1 * X),
+              lambda: algopy.special.dawsn(0.1 * X), lambda: algopy.arctan(0.1 * X), lambda: algopy.tanh(0.1 * X)):
         try:
             f()
         except Exception:
